@@ -752,8 +752,12 @@ class CallsMixin:
         sh = self.shape_of_class(cls)
         flds = dataclasses.fields(cls)
         names = [f.name for f in flds]
-        if set(names) != set(sh.fields):
+        # fields with a default that the shape does not mention are constants of the class
+        # (the `_regex: Final[str] = ...` pattern attributes); they must not be passed explicitly
+        const = [f.name for f in flds if f.name not in sh.fields and f.default is not dataclasses.MISSING]
+        if set(names) - set(const) != set(sh.fields) or any(k in const for k in kwargs):
             raise BindingLost(f"dataclass {cls.__name__} fields {names} differ from declared shape {list(sh.fields)}")
+        flds = [f for f in flds if f.name not in const]
         vals = {}
         pos = [f for f in flds if f.init and not f.kw_only]
         if len(args) > len(pos):
@@ -833,7 +837,7 @@ class CallsMixin:
         finally:
             self.fstack.pop()
         conc = {p: v.d for p, v in bound.items() if isinstance(v.shape, ConcS)}
-        c = self.reg.lookup(key, conc)
+        c = self.reg.lookup(key, conc, {p: self.as_sym(v) for p, v in bound.items()})
         if c is not None and not c.inline and not force_inline:
             return self.apply_contract(c, bound, st)
         if c is None and not force_inline and key not in self.reg.inline_ok:
